@@ -535,6 +535,11 @@ class Flow:
 
     def ev_call(self, e, env, fr, loops, guards):
         E = lambda x: self.ev(x, env, fr, loops, guards)
+        if isinstance(e.func, ast.Name) and e.func.id == "print" and "print" not in env:
+            # printing is a sink: its arguments (starred or not) are evaluated for their effects only
+            for a in e.args:
+                E(a.value if isinstance(a, ast.Starred) else a)
+            return NONE
         if any(isinstance(a, ast.Starred) for a in e.args) or any(k.arg is None for k in e.keywords):
             raise Unsupported("*args/**kwargs at call %s in %s" % (u(e)[:60], fr.fi.qualname))
         args = [E(a) for a in e.args]
